@@ -64,6 +64,16 @@ Theorem C06_invariant_over_histories : forall cap v minb dev stream, 17 <= cap -
 Proof. exact faults_run. Qed.
 Print Assumptions C06_invariant_over_histories.
 
+(* "on one or more endpoints": the fault history of this stream may be interleaved with ANY other buffers (frames of other endpoints with
+   their own chains and faults, TECMP frames, garbage, short buffers): the packets delivered for THIS endpoint are still all good *)
+Theorem C06_other_traffic_in_between : forall cap v minb dev stream, 17 <= cap -> 1 <= v < 256 -> 0 <= dev < 65536 -> 0 <= stream < 256 ->
+  forall sent fs c0, blocks cap v sent fs -> Z.of_nat (length fs) < 65536 ->
+  forall fed h st, lookup (dev, stream) st = None -> Forall (fed_ok fs) fed ->
+  proj (dev, stream) h = map (fbytes minb dev stream fs c0) fed ->
+  Forall (good cap v dev stream sent fs fed) (projp (dev, stream) (runh st h)).
+Proof. exact faults_among_other_traffic. Qed.
+Print Assumptions C06_other_traffic_in_between.
+
 (* recovery: from ANY decoder state (whatever the faults left behind), the frames of later messages that arrive complete, in order and
    uninterrupted on the endpoint are all delivered - aggregated or segmented (this is C01's statement, which is for every state st);
    frames of other endpoints in between do not matter (C18_isolation) *)
